@@ -69,6 +69,11 @@ CHECKS = {
    text="Generated-input search. Programs from the slot matrix (one token per line, so a line identifies a token) and tape-decoded random programs with planted canonical forms and near misses are analysed in three layouts; for each detector of the group the reported lines must contain the line of every canonical instance found by an independent reference detector and may contain only lines of canonical or explicitly undecided instances (DESIGN section 8 fixes the forms). proptest shrinks failures on the byte tape. Exploration: decided only on canonical and clearly non-matching forms.",
    note="Trusted: the reference detectors in harness/src/refmodel/detect.rs (written from the property text and DESIGN section 8), the reference traversal, solang-parser.",
    design="DESIGN.md section 5 C08, section 8.4"),
+ "C09": dict(
+   technique="property-based testing: bounded-exhaustive enumeration of version triples x spellings x pragma placements against a version model, metamorphic monotonicity check, random bodies",
+   text="Generated-input search. All 1066 version triples 0.0.0..1.12.40 are enumerated with operator spellings and placements of unrelated pragmas (thorough: the full product) over a template body with SafeMath calls and require strings of 0/1/31/32/33/64 bytes; the four detectors must report exactly what the triple-comparison model with thresholds 0.8.0 / 0.8.4 says, never both SafeMath detectors, and their activity must be monotone along the sorted versions; random bodies extend the body domain. Exploration, complete over the listed version domain.",
+   note="Trusted: the version model (lexicographic triple comparison) and the reference site finders in refmodel/detect.rs.",
+   design="DESIGN.md section 5 C09, section 8.5"),
 }
 
 NOT_YET = {
